@@ -653,6 +653,17 @@ def gen_program(rng, nth, big):
     return nf, "\n".join(body)
 
 
+def build_prog(work, pi, src, nth, nf):
+    c = os.path.join(work, "p%d.c" % pi)
+    open(c, "w").write(src)
+    exe = os.path.join(work, "p%d" % pi)
+    sh(["gcc", "-pg", "-O0", "-no-pie", "-pthread", "-o", exe, c], check=True)
+    full = os.path.join(work, "p%d.full" % pi)
+    sh(["timeout", "20", exe, full, "-1", "-1", "9"], check=True, cwd=work)      # (-pg: gmon.out goes to cwd)
+    return {"exe": exe, "nth": nth, "nf": nf, "ftab": func_table(exe, nf), "full": read_log(full, nth),
+            "src": src, "id": pi}
+
+
 def read_log(path, nth):
     b = open(path, "rb").read()
     sz = 8 + 4 * MAXEV
@@ -774,6 +785,10 @@ def run_e2e(ctx, objdir):
     with concurrent.futures.ThreadPoolExecutor(max_workers=6) as ex:
         obs = list(ex.map(lambda ic: e2e_run(uft, objdir, progs[ic[1]["prog"]], work, ic[0], ic[1]), enumerate(cases)))
     ctx.log("end-to-end: %d traced runs in %.1fs" % (len(cases), time.time() - t0))
+    e2e_judge(ctx, progs, cases, obs)
+
+
+def e2e_judge(ctx, progs, cases, obs):
     ecases, owner = [], []
     nviol = {}
 
@@ -914,7 +929,9 @@ def common_meta(ctx):
         "hand-written model coq/theories/C04/Model.v of libmcount/record.c (get_shmem_buffer, get_new_shmem_buffer, "
         "record_ret_stack, record_trace_data), libmcount/mcount.c (segv_handler, exit filter), cmds/record.c "
         "(read_record_mmap, record_mmap_file, writer, flush_shmem_list, record_remaining_buffer, tid_list, stop_tracing)",
-        "generated constants coq/theories/Gen/Consts.v (record magic, flag bits)",
+        "generated constants coq/theories/Gen/Consts.v (record magic, record types, shm flag bits, message numbers)",
+        "props/c04.py SINGLE_BUMP names which size-update discipline of record_ret_stack the model is run with "
+        "(False = /repo as found; the theorem without guard, C04_prefix_fixed, is about True)",
         "harness/c/c04_rec.c (ptrace driver; #includes cmds/record.c), harness/c/c04_prod.c, props/c04.py "
         "(script generation, payload encoding, log decoding)",
         "Linux ptrace single-stepping, POSIX shm, FIFO and SIGKILL semantics",
@@ -975,6 +992,26 @@ def replay(ctx, obj):
         ctx.log("model expects", (model_obs(ctx, c, r, f0) or "")[:400])
         if res is not None:
             store_verdict(ctx, [c], [r], res, f0)
+    elif obj.get("line") == "e2e":
+        src, case = obj["program"], dict(obj["case"])
+        nth = int(re.search(r"#define NTH (\d+)", src).group(1))
+        nf = len(re.findall(r"^void f\d+\(int d\);", src, flags=re.M))
+        work = os.path.join(ctx.scratch, "e2e")
+        os.makedirs(work)
+        pr = build_prog(work, 0, src, nth, nf)
+        case["prog"] = 0
+        del E2E_TIMEOUTS[:]
+        ob = e2e_run(os.path.join(objdir, "uftrace"), objdir, pr, work, 0, case)
+        ctx.log("replayed e2e case:", case, "rc=%s files=%s" % (ob.get("rc"), ob.get("files")))
+        e2e_judge(ctx, [pr], [case], [ob])
+    elif obj.get("line") == "forkwin":
+        fw = {}
+        fork_window_e2e(ctx, objdir, fw)
+        ctx.case(key="replay")
+        ctx.log("fork-window witness:", fw)
+        if fw.get("hang"):
+            report_known(ctx, "fork-window", "fork() fails in the tracee: `uftrace record` does not terminate",
+                         {"line": "forkwin", "program": FORK_FAIL_PROG})
     elif obj.get("line") == "live":
         # real pids differ from run to run: the recorded history is re-judged, and a fresh batch is run
         h = obj.get("history") or obj.get("first_disagreement")
